@@ -155,21 +155,8 @@ Section Impl.
     unfold check_impl_field in H. split_nil H. apply forallb_forall. intros a Ha.
     rewrite flat_map_nil in Hn0. specialize (Hn0 a Ha). unfold args_of. rewrite opt_list_args_of in Hn0.
     destruct (arg_named _ (iname (iv_name a))) eqn:E; [reflexivity|].
-    apply find_none_forall in E. rewrite E in Hn0. unfold is_required.
-    destruct (iv_type a); cbn [ty_is_nonnull] in Hn0; try reflexivity. discriminate.
-  Qed.
-
-  (** what the code enforces for additional arguments: nullable, default or not *)
-  Lemma sound_extra_args_nullable : ok_extra_args_nullable doc = true.
-  Proof.
-    unfold ok_extra_args_nullable, forall_impl_fields. apply forallb_forall. intros [[n impls] fs] Hc. cbn [fst snd].
-    apply forallb_forall. intros j Hj. apply forallb_forall. intros jf Hjf.
-    destruct (impl_field_facts _ _ _ _ _ Hc Hj Hjf) as [f [-> H]].
-    unfold check_impl_field in H. split_nil H. apply forallb_forall. intros a Ha.
-    rewrite flat_map_nil in Hn0. specialize (Hn0 a Ha). unfold args_of. rewrite opt_list_args_of in Hn0.
-    destruct (arg_named _ (iname (iv_name a))) eqn:E; [reflexivity|].
-    apply find_none_forall in E. rewrite E in Hn0. unfold ty_nonnull.
-    destruct (iv_type a); cbn [ty_is_nonnull] in Hn0; try reflexivity. discriminate.
+    apply find_none_forall in E. rewrite E in Hn0. unfold is_required. unfold iv_required in Hn0.
+    destruct (iv_type a), (iv_default a); cbn [ty_is_nonnull andb] in Hn0; try reflexivity. discriminate.
   Qed.
 
   Lemma sound_iface_field_type : ok_iface_field_type doc = true.
